@@ -116,11 +116,24 @@ def compare_results(net_a, net_b, atol=1e-10, rtol=1e-9, index_map=None, skip_co
             continue
         a, b = net_a[t], net_b[t]
         im = (index_map or {}).get(t[4:])
+        stagnant = None
+        if "mdot_from_kg_per_s" in a.columns and "mdot_from_kg_per_s" in b.columns:
+            ma = np.abs(a["mdot_from_kg_per_s"].values.astype(float))
+            mb_ = b["mdot_from_kg_per_s"]
+            mb = np.abs((mb_.reindex([im[i] for i in a.index]).values if im is not None else mb_.reindex(a.index).values).astype(float))
+            # a branch whose mass flow is below 1e-6 kg/s in either run carries solver noise (dp ~ m|m| has slope 0 at m = 0,
+            # Newton converges linearly there); its velocities are that noise divided by rho*A (large for light gases)
+            stagnant = (ma < 1e-6) | (mb < 1e-6)
         for col in a.columns:
             if col in skip_cols or col not in b.columns:
                 continue
             va = a[col].values.astype(float)
             vb = (b[col].reindex([im[i] for i in a.index]).values if im is not None else b[col].reindex(a.index).values).astype(float)
+            if stagnant is not None and col.startswith(("v_", "vdot")):
+                va, vb = va.copy(), vb.copy()
+                both = stagnant & ~np.isnan(va) & ~np.isnan(vb)
+                va[both] = 0.0
+                vb[both] = 0.0
             nan_a, nan_b = np.isnan(va), np.isnan(vb)
             at = atol
             if flow_scale_tol is not None and col.startswith(FLOW_COLS):
